@@ -5,7 +5,7 @@ const COL = '\\d+';
 const MESSAGE = '.+?';
 const KIND = '[^\\]\\s]+'; // Kind never contains ']' nor spaces. It avoids confusion with ' [' ... ']' in the message
 
-let regexp = '^E?(F)E*:E*(L)E*:E*(C)E*: E*(M)E* \\[(K)\\]$';
+let regexp = '^E*(F)E*:E*(L)E*:E*(C)E*: E*(M)E* \\[(K)\\]$';
 regexp = regexp.replaceAll('E', ESCAPE);
 regexp = regexp.replace('F', FILEPATH);
 regexp = regexp.replace('L', LINE);
